@@ -158,8 +158,16 @@ pub fn run_case(c: &Value) -> Value {
         let r = with_providers(&tables, if layout == "pq" { "pq" } else { "mem" }, |provs| {
             let bound = bind(provs, &sql);
             let stats = if layout == "mem0" { std::collections::HashMap::new() } else { stats_of(provs) };
+            // an optimizer panic is reported as that plan's error (kind "panic"); judged by C31/C29, not here
+            let caught = |f: &dyn Fn() -> Result<query_engine::planner::LogicalPlan, query_engine::QueryError>| {
+                match std::panic::catch_unwind(std::panic::AssertUnwindSafe(|| f())) {
+                    Ok(r) => r,
+                    Err(e) => { let msg = if let Some(s) = e.downcast_ref::<&str>() { s.to_string() } else if let Some(s) = e.downcast_ref::<String>() { s.clone() } else { "panic".into() };
+                        Err(query_engine::QueryError::Internal(format!("panic: {}", msg))) }
+                }
+            };
             let (opt, jr) = match &bound {
-                Ok(b) => (optimize_production(&stats, b.clone()), optimize(vec![rule_by_name("JoinReorder").unwrap()], &stats, b.clone())),
+                Ok(b) => (caught(&|| optimize_production(&stats, b.clone())), caught(&|| optimize(vec![rule_by_name("JoinReorder").unwrap()], &stats, b.clone()))),
                 Err(_) => (Err(query_engine::QueryError::Plan("unbound".into())), Err(query_engine::QueryError::Plan("unbound".into()))),
             };
             let ans = |p: &Result<query_engine::planner::LogicalPlan, query_engine::QueryError>| match p { Ok(x) => execute(provs, x, false), Err(e) => err_json(e) };
